@@ -467,8 +467,27 @@ func RunCase(r *hk.Run, s *Set, sc *Schedule, obsEvery bool) caseResult {
 		}
 		res.lastObs = a
 	}
+	waited := map[string]bool{}
 	check := func(when string) {
 		d, p := op("dump"), op("pend")
+		for _, row := range strings.Split(d, ";") {
+			switch {
+			case strings.HasPrefix(row, "missing|"):
+				b := row[len("missing|"):strings.IndexByte(row, ',')]
+				if !waited[b] {
+					waited[b] = true
+					r.Hit("mech:missing-dependency-noted")
+				}
+			case strings.HasPrefix(row, "have|") && strings.HasSuffix(row, ",0"):
+				r.Hit("mech:delete-claim-waits-for-target-meta")
+			case strings.HasPrefix(row, "have|") && strings.HasSuffix(row, ",1"):
+				b := row[len("have|"):strings.IndexByte(row, '=')]
+				if waited[b] {
+					delete(waited, b)
+					r.Hit("mech:dependant-reindexed-when-dependency-arrived")
+				}
+			}
+		}
 		if msg := s.checkPending(d, p, delivered); msg != "" {
 			r.Fail("c05-pending-not-remembered", msg+" "+when, "", d+" "+p, r.CaseOps())
 		}
@@ -730,7 +749,7 @@ func MalformedObs(r *hk.Run) {
 // Run is the C05 generator.
 func Run(r *hk.Run) {
 	r.Res.Rule = "distinct (blob set, final row dump) pairs; every schedule of a set is compared with the set's in-order delivery"
-	maxPerm, extra, nRandom := 5, 2, 6
+	maxPerm, extra, nRandom := 5, 2, 12
 	if r.Thorough() {
 		maxPerm, extra, nRandom = 6, 4, 40
 	}
